@@ -10,7 +10,7 @@ import (
 const NTemplates = 8
 
 // NFileTemplates file-passing skeletons follow the NTemplates dataflow ones.
-const NFileTemplates = 3
+const NFileTemplates = 4
 
 func ref(call string, path ...string) *Exp { return &Exp{Kind: ERefCall, Id: call, Path: path} }
 func self(id string, path ...string) *Exp  { return &Exp{Kind: ERefSelf, Id: id, Path: path} }
@@ -193,12 +193,14 @@ func Template(kind int, seed int64, cfg *Config) *Program {
 			},
 			Ret: []Binding{{Id: "yi", Exp: ref("M1", "yi")}, {Id: "kk", Exp: ref("M1", "kk")}, {Id: "n", Exp: ref("COLL", "n")}}}
 		p.Pipelines = []*Pipeline{inner, top}
-	case 8, 9, 10:
+	case 8, 9, 10, 11:
 		// file-passing skeletons: a stage mapped over a run-time sized
 		// collection writes files;
 		//  8: the files are only returned from the top level (no stage consumes them)
 		//  9: the files are only named by a pipeline retain
 		// 10: the files are consumed by a second mapped stage and returned
+		// 11: an unmapped stage returns a collection of structs; only the file
+		//     member, projected through the collection, is returned
 		sf := &Struct{Name: "SF", Fields: []Param{{Name: "f", Type: TFile}, {Name: "n", Type: TInt}}}
 		p.Structs = append(p.Structs, sf)
 		tsf := &Type{Kind: KStruct, Name: "SF"}
@@ -212,6 +214,14 @@ func Template(kind int, seed int64, cfg *Config) *Program {
 				{Callee: "MK", Map: true, Volatile: g.pct(50), Binds: []Binding{{Id: "x", Exp: ref("GENI", "arr"), Split: true}}},
 			}}
 		switch kind {
+		case 11:
+			mks := src(&Stage{Name: "MKS", Ins: []Param{{Name: "x", Type: wrap(TInt)}}, Outs: []Param{{Name: "ms", Type: TMapOf(tsf)}, {Name: "arrs", Type: ArrayOf(tsf)}, {Name: "g", Type: TFile}, {Name: "one", Type: tsf}}})
+			p.Stages = append(p.Stages, mks)
+			top.Calls = []*Call{top.Calls[0],
+				{Callee: "MKS", Binds: []Binding{{Id: "x", Exp: ref("GENI", "arr")}}},
+				{Callee: "CONS", Binds: []Binding{{Id: "f", Exp: ref("MKS", "g")}, {Id: "s", Exp: ref("MKS", "one")}}}}
+			top.Outs = []Param{{Name: "fs", Type: TMapOf(TFile)}, {Name: "fa", Type: ArrayOf(TFile)}, {Name: "f1", Type: TFile}, {Name: "y", Type: TInt}}
+			top.Ret = []Binding{{Id: "fs", Exp: ref("MKS", "ms", "f")}, {Id: "fa", Exp: ref("MKS", "arrs", "f")}, {Id: "f1", Exp: ref("MKS", "one", "f")}, {Id: "y", Exp: ref("CONS", "y")}}
 		case 8:
 			top.Outs = []Param{{Name: "f", Type: wrap(TFile)}, {Name: "s", Type: wrap(tsf)}, {Name: "fs", Type: wrap(ArrayOf(TFile))}}
 			top.Ret = []Binding{{Id: "f", Exp: ref("MK", "f")}, {Id: "s", Exp: ref("MK", "s")}, {Id: "fs", Exp: ref("MK", "fs")}}
